@@ -289,6 +289,7 @@ def composite_leaves(items, out=None):
 # the harness
 # ---------------------------------------------------------------------------------------------
 class LoadgenHarness(Harness):
+    gc_discipline = True  # see sim/batch.py run_case
     name = "loadgen"
     properties = ("C04", "C05", "C18")
 
